@@ -74,7 +74,7 @@ func VerifH01cServerEntry() {
 		return
 	}
 	rawHost, host := zzReqHost()
-	path := zzReqPath(2)
+	path := zzReqPath(2 + verifrt.Tier())
 	// the client may spell the same path with percent-escapes
 	rawPath := ""
 	if verifrt.Bool("escaped-spelling") {
